@@ -94,6 +94,9 @@ def build_map(R, spec, k0):
         m.conds.append(R["r1"] == E.cst(0, 32))
     elif c == "r2!=0":
         m.conds.append(R["r2"] != E.cst(0, 32))
+    elif c == "p==P":
+        # an equality on the base register of the map's own stores: assume() rewrites those keys to absolute addresses
+        m.conds.append(R["p"] == E.cst(P, 32))
     return m
 
 
@@ -102,6 +105,8 @@ def cond_ok(c, val):
         return val["r1"] == 0
     if c == "r2!=0":
         return val["r2"] != 0
+    if c == "p==P":
+        return val["p"] == P
     return True
 
 
@@ -208,10 +213,14 @@ def check_pair(args):
         for l in locs1 | locs2 | wl1 | wl2:
             loc, size = mkloc(R, l)
             allowed.add(str(loc.a) if loc._is_mem else str(loc))
-        extra = wl - allowed
+        # an equality condition on a store's base register lets assume() rename that location (p+k -> P+k): the
+        # per-location symbolic comparison would then ask for more than the statement; such pairs are judged by the
+        # concrete consequence below only
+        pcond = "p==P" in (s1.get("c"), s2.get("c"))
+        extra = set() if pcond else (wl - allowed)
         if extra:
             out.append((("extra-location", feature(s1, s2)), "merged map writes %s, inputs write %s" % (sorted(extra), sorted(allowed))))
-        for l in sorted(locs1 | locs2):
+        for l in ([] if pcond else sorted(locs1 | locs2)):
             loc, size = mkloc(R, l)
             try:
                 vm = mm[loc]
@@ -271,7 +280,7 @@ def check_pair(args):
                     continue
                 loc, size = mkloc(R, l)
                 try:
-                    cm = walk_alts(res["mm"][loc], env_of(val))
+                    cm = walk_alts(res["mm"](loc), env_of(val))
                 except Exception:
                     continue
                 if cm is None:
@@ -280,7 +289,7 @@ def check_pair(args):
                     if res[side] is None:
                         continue
                     try:
-                        cv = walk_alts(res[side][loc], env_of(val))
+                        cv = walk_alts(res[side](loc), env_of(val))
                     except Exception:
                         continue
                     nmem += 1
@@ -304,7 +313,9 @@ def feature(s1, s2):
     l1 = set(l for l, _ in s1["w"]); l2 = set(l for l, _ in s2["w"])
     if ("Mp" in l1 and "M8p1" in l2) or ("Mp" in l2 and "M8p1" in l1):
         f.append("overlap-across-inputs")
-    if s1.get("c") or s2.get("c"):
+    if "p==P" in (s1.get("c"), s2.get("c")):
+        f.append("pcond1" if s1.get("c") == "p==P" else "pcond2")
+    elif s1.get("c") or s2.get("c"):
         f.append("cond")
     if "Mv4" in l1 or "Mv4" in l2:
         f.append("vecptr")
@@ -362,7 +373,7 @@ def specs(tier):
 def cases(tier):
     out = []
     for (a, b) in specs(tier):
-        for ci, cj in ((None, None), ("r1==0", None), ("r1==0", "r2!=0")):
+        for ci, cj in ((None, None), ("r1==0", None), ("r1==0", "r2!=0"), ("p==P", None), (None, "p==P")):
             aa = dict(a, c=ci) if ci else a
             bb = dict(b, c=cj) if cj else b
             for (w, cx) in CONFIGS:
